@@ -85,7 +85,7 @@ def check_C03(tier):
     agg.add(_gencheck('C03', tier))
     rule = ('case = (isotope, level, mode 1..20, window class) accepted by decay0_generator::initialize x N steered tapes, plus nested window chains '
             'W0>W1>W2>W3 for toallevents monotonicity; oracle: visible energy vs Q (reference table) and README level energy, window membership, '
-            'toallevents>=1; non-trivial & distinct = distinct (configuration, window class, cascade signature, tail class of consumed deviates)')
+            'toallevents>=1; plus the cascade-level pass: every de-excitation routine <Nuclide>low called directly for every entry level the reference tabulates (185 pairs x 30000 / 1000000 steered tapes): the energy released adds up to the entry level energy (3 keV); non-trivial & distinct = distinct (configuration, window class, cascade signature, tail class of consumed deviates)')
     return verdict(agg, tier, t0, rule, GEN_ASSUME + ['tolerance 3 keV on the energy budget (tabulated-energy rounding), 1e-6 MeV on window bounds (stored as float)',
                                                      'for Bi214/Pb214/Po218/Rn222 only the primary leptons/X-rays are counted (the follow-up alpha chain is not part of the 2b budget)',
                                                      'gA modes 21-24 run on synthetic data sets written by the repo\'s own encoder (see C14) with the isotope\'s Q-value'], min_eval=1000)
@@ -97,7 +97,7 @@ def check_C04(tier):
     agg.add(_gencheck('C04', tier))
     rule = ('case = (one of the 69 background names | accepted DBD configuration incl. windows) x steered tape with heavy tail steering (low 10^-U(0,12), '
             'high 1-10^-U(0,12), reference thresholds); oracle: validity predicate (1..100 particles, species, finite bounded momenta, finite non-negative '
-            'non-decreasing times, event time 0, label == requested name, <=20000 deviates); distinct = (configuration, path signature, tail class)')
+            'non-decreasing times, event time 0, label == requested name, <=20000 deviates); plus the cascade-level pass (every <Nuclide>low routine x every entry level x 30000 / 1000000 tapes) through the particle part of the predicate; distinct = (configuration, path signature, tail class)')
     return verdict(agg, tier, t0, rule, GEN_ASSUME, min_eval=1000)
 
 
@@ -158,6 +158,48 @@ def _fuzz(name, srcs, prop, secs, jobs, agg, max_len=2048, extra=None, timeout_s
         agg.evaluations += 1
         record(f, 'replay tier')
 
+    # systematic tier (grammar-based generation from the valid seed files): every white-space separated token of every seed input is replaced, one
+    # at a time, by every entry of the target's token dictionary (number spellings such as nan / inf / 1e999 / -1, format marks) - an enumeration,
+    # so a loader that mishandles ONE spelling at ONE position does not depend on the mutator finding it
+    dfile = os.path.join(ROOT, 'fuzz', 'dict', name + '.dict')
+    if os.path.exists(dfile):
+        toks = []
+        for l in open(dfile):
+            l = l.strip()
+            if l.startswith('"') and l.endswith('"'):
+                toks.append(l[1:-1].encode().decode('unicode_escape').encode('latin-1'))
+        sd = os.path.join(rd, 'sys')
+        os.makedirs(sd)
+        nsys = 0
+        for f in seeds:
+            if 'regress' in os.path.basename(f):
+                continue
+            data = open(f, 'rb').read()
+            spans = [m.span() for m in re.finditer(rb'[^\s]+', data[2:])]
+            step = max(1, len(spans) // 120)
+            for k, (a0, b0) in enumerate(spans):
+                if k % step and k < len(spans) - 6:
+                    continue
+                for t in toks:
+                    open(os.path.join(sd, 's%06d' % nsys), 'wb').write(data[:2 + a0] + t + data[2 + b0:])
+                    nsys += 1
+        for attempt in range(6):
+            ad = os.path.join(rd, 'asys%d' % attempt)
+            os.makedirs(ad)
+            r = subprocess.run([b, '-runs=0', '-max_len=%d' % (max_len + 64), '-timeout=%d' % timeout_s, '-rss_limit_mb=3000', '-malloc_limit_mb=1024', '-artifact_prefix=' + ad + '/', sd], stdout=subprocess.PIPE, stderr=subprocess.PIPE, env=env)
+            arts = [a for a in os.listdir(ad) if a.startswith(('crash-', 'leak-', 'timeout-', 'oom-'))]
+            if r.returncode == 0 or not arts:
+                break
+            for a in arts:
+                pth = os.path.join(ad, a)
+                record(pth, 'systematic token substitution')
+                h = hashlib.sha1(open(pth, 'rb').read()).hexdigest()
+                for f in os.listdir(sd):   # drop the failing input and go on with the rest
+                    if hashlib.sha1(open(os.path.join(sd, f), 'rb').read()).hexdigest() == h:
+                        os.remove(os.path.join(sd, f))
+        stats['systematic_token_substitutions'] = nsys
+        agg.evaluations += nsys
+
     def job(i):
         cd = os.path.join(rd, 'c%d' % i)
         ad = os.path.join(rd, 'a%d' % i)
@@ -169,6 +211,9 @@ def _fuzz(name, srcs, prop, secs, jobs, agg, max_len=2048, extra=None, timeout_s
         e = dict(env, VERIF_FUZZ_STATS=os.path.join(rd, 'stats%d.json' % i))
         cmd = [b, cd, '-max_total_time=%d' % secs, '-seed=%d' % (seed() * 100 + i + 1), '-artifact_prefix=' + ad + '/', '-print_final_stats=1',
                '-max_len=%d' % max_len, '-timeout=%d' % timeout_s, '-rss_limit_mb=3000', '-malloc_limit_mb=1024', '-use_value_profile=0'] + (extra or [])
+        dfile = os.path.join(ROOT, 'fuzz', 'dict', name + '.dict')
+        if os.path.exists(dfile) and i % 4 != 3:   # three jobs in four use the token dictionary of the target
+            cmd.append('-dict=' + dfile)
         out = []
         # libFuzzer stops at the first crash: restart until the time budget is used (the corpus dir keeps its state)
         t_end = time.time() + secs
@@ -266,12 +311,12 @@ def check_C09(tier):
     t0 = time.time()
     b = compile_bin('proto', ['checks/proto.cc'], 'fast', libs=['-lrapidcheck', '-rdynamic'])
     maxlen, rc_cases = ('5', '60000') if tier == 'thorough' else ('4', '25000')
-    reps = run_native(b, ['--seed', str(seed()), '--maxlen', maxlen, '--rc_cases', rc_cases, '--known', known_tsv('C09')], NCPU, 'C09')
+    reps = run_native(b, ['--seed', str(seed()), '--maxlen', maxlen, '--rc_cases', rc_cases, '--known', known_tsv('C09')], NCPU, 'C09', extra_env={'VERIF_GA_BASE': _ga_env()['BXDECAY0_DBD_GA_DATA_DIR'], 'VERIF_SCRATCH': '/dev/shm' if os.access('/dev/shm', os.W_OK) else os.path.join(BUILD, 'run')})
     agg = Agg('C09')
     agg.add(reps)
     rule = ('(a) ALL call sequences of length 1..%s over an alphabet of 28 abstract public calls (setters with valid/invalid arguments incl. no/one-sided/inverted/too-high energy windows, by-label known/unknown, add_operation valid/null, '
             'initialize, shoot, reset, destroy+recreate) enumerated exhaustively; (a\') the failure-recovery family enumerated completely: 10 valid configurations x every call that spoils one '
-            '(unknown isotope, missing level, gA mode without data, wrong category, inverted window, window above Q) ; initialize (refused) ; repairing call ; EVERY sequence of 0..2 further calls ; initialize ; shoot ; shoot; (b) rapidcheck-generated sequences up to length ~60 with whole-sequence shrinking; oracle = explicit '
+            '(unknown isotope, missing level, gA mode without data, wrong category, inverted window, window above Q) ; initialize (refused) ; repairing call ; EVERY sequence of 0..2 further calls ; initialize ; shoot ; shoot; (a\'\') gA failure recovery: tab_ocdf.data of a synthetic data set cut at every line start and a stride of byte offsets, initialize() refused inside the loader, file restored, the same object initialised again / after reset + re-configuration / after another gA mode in between: 12 events == a new generator\'s; (b) rapidcheck-generated sequences up to length ~60 with whole-sequence shrinking; oracle = explicit '
             'model (which calls must raise, every getter after every step, reset == fresh, events and toallevents == fresh instance on the same tape); '
             'non-trivial & distinct = distinct sequences containing at least one refused call and one successful initialize' % maxlen)
     return verdict(agg, tier, t0, rule, ['gsl_integration_qng is interposed by a cheap deterministic stub in this binary (only the protocol is under test; acceptance itself is C06)',
@@ -286,12 +331,12 @@ def check_C07(tier):
     agg = Agg('C07')
     for variant in (('fast', 'san') if tier == 'thorough' else ('fast',)):
         b = compile_bin('history', ['checks/history.cc'], variant, libs=['-lrapidcheck'], inc=[vlib.build_ref()])
-        agg.add(run_native(b, ['--seed', str(seed()), '--cases', cases if variant == 'fast' else '600', '--marathon', ('400000' if tier == 'thorough' else '40000') if variant == 'fast' else '8000', '--known', known_tsv('C07')], NCPU, 'C07-' + variant))
+        agg.add(run_native(b, ['--seed', str(seed()), '--cases', cases if variant == 'fast' else '600', '--marathon', ('400000' if tier == 'thorough' else '40000') if variant == 'fast' else '8000', '--deepwarm', ('30000' if tier == 'thorough' else '6000') if variant == 'fast' else '1500', '--deepcmp', ('20000' if tier == 'thorough' else '3000') if variant == 'fast' else '500', '--known', known_tsv('C07')], NCPU, 'C07-' + variant))
     rule = ('rapidcheck-generated API histories (up to ~100 operations, whole-sequence shrinking) over 4 generator slots and ~85 configurations (21 hand-picked: angular correlations, deep cascades, chains, window mode, 4b, b+ modes; plus every published background name), shot tapes steered onto the reference thresholds'
             ' and drawn from a small pool so that the same (configuration, tape) recurs in different histories: create+initialise, shoot into a fresh / reused / pre-filled (junk particles) / shrink_to_fit event, reset+re-initialise, destroy, interleaved across slots; '
             'oracle at every shot: what a PRISTINE PROCESS (forked before any library call; fresh generator, fresh event) produces for the same configuration, init tape and shot tape, bit-identical incl. deviates consumed; non-trivial & distinct = (target configuration, history shape) where the shot had '
             '>=1 earlier shot on the same instance, >=1 operation on another instance in between, and a non-fresh event; plus one marathon history per shard (one generator per configuration, then 40000 / 400000 shots hopping between all of them in one process, '
-            'minimised by delta debugging in fresh child processes on failure); every history runs in its own forked child, so failures do not depend on earlier cases and replay in a fresh process')
+            'minimised by delta debugging in fresh child processes on failure); plus deep single-instance histories: one instance per double-beta entry of the pool and 8 background nuclides shoots 6000 / 30000 distinct tapes, then 3000 / 20000 further tapes are each shot by the warmed instance and by its cold twin (a process forked right after initialize() that never shot), bit-identical incl. the deviate count; every history runs in its own forked child, so failures do not depend on earlier cases and replay in a fresh process')
     return verdict(agg, tier, t0, rule, ['the oracle process is forked before any library call, so it shares no function-local static, cache or global with the history under test', 'thorough tier repeats the histories against the ASan/UBSan build'], min_eval=500)
 
 
@@ -303,7 +348,7 @@ def check_C10(tier):
     agg.add(run_native(b, ['--seed', str(seed()), '--cases', cases, '--known', known_tsv('C10')], NCPU, 'C10'))
     rule = ('case = (event: synthetic 1-12 particles incl. collinear / axis-aligned / back-to-back, or a real decay of a random published nuclide / DBD configuration on a generated tape) x '
             '(cone axis by vector or angles incl. poles and +-x,+-y; aperture in [0,pi) with mass at 0 and near pi; rectangular half-angles in (0,pi/2)) x species filter incl. all and an absent '
-            'species x rank -1..5 x error_on_missing x the five configuration entry points; oracle: count/species/times/|p| unchanged, event with registered op == op applied to the op-less event '
+            'species x rank -1..5 x error_on_missing x the five configuration entry points x op object new / configured before / configured, reset(), configured / configured, deactivate(), configured; a deactivated op passes the event through; oracle: count/species/times/|p| unchanged, event with registered op == op applied to the op-less event '
             'on the tape suffix, target mode: all pairwise dot products + orientation preserved and target inside cone / rectangular window (both half-angles), selection mode: selected inside, '
             'others bit-identical, nothing selected: unchanged or logic_error iff requested; every 5th case: degree entry point == radian entry point on the same tape; '
             'distinct = (entry point, mode, cone class, #particles, selected count)')
@@ -361,7 +406,7 @@ def check_C15(tier):
     rule = ('four libFuzzer targets (ASan+UBSan, 16 jobs each, even jobs seeded from corpus/<target>/ = shipped valid files + encoder output, odd jobs from an empty corpus): event_reader on 1-3 files '
             'with (start,max); dbd_gA p.d.f. loader and o.c.d.f. loader followed by 32 shots of the matching sampler; load_optimized_cdf_array; the three catalogue list parsers via the guarded hook; '
             'oracle inside each target: std::exception or the loader\'s validity predicate (event::is_valid, finite non-negative energies with e1+e2<=esum_max, non-blank names, mode ids>0), '
-            'no sanitizer report, no hang (10 s, re-verified 3x), single allocations <= 1 GiB; evaluations = executions; distinct = corpus units (coverage-increasing inputs)')
+            'finite parameters and a finite non-negative interpolated density for an accepted p.d.f. table), no sanitizer report, no hang (10 s, re-verified 3x), single allocations <= 1 GiB; three jobs in four use the target\'s token dictionary (fuzz/dict/); before the campaigns a systematic tier replaces every token of every valid seed file by every dictionary entry, one at a time; evaluations = executions; distinct = corpus units (coverage-increasing inputs)')
     return verdict(agg, tier, t0, rule, ['only crash-/leak- artifacts count; timeout-/oom- artifacts only if they reproduce 3x single-threaded', 'inputs are at most 4 KiB',
                                          'VERIF-ORACLE-VIOLATION traps mark semantic violations (garbage loads), sanitizer reports mark memory errors'], extra_cov=cov, min_eval=10000)
 
@@ -423,6 +468,7 @@ def check_C13(tier):
             'positional / missing, unknown option, option with missing value, stray parameter; accepted lines: exactly N records with ids 0..N-1, each textually identical to api_ref (README-style API '
             'program on std::default_random_engine(seed)), second run byte-identical, companion file reports effective settings and @status=0; refused lines: no record, no @status=0; for a sample of '
             'accepted lines an LD_PRELOAD shim kills the process before EVERY write of the run: @status=0 present => event file complete; '
+            'a systematic pass runs every mutation kind x variant on three valid lines and 30 ACCEPTED lines that carry every real-valued setting with a decimal value, every MDL species spelling and rank, short and long option names and the three logging levels; '
             'non-trivial & distinct = distinct normalised command lines x verdict, plus each (line, kill point)')
     return verdict(agg, tier, t0, rule, ['expected verdict = line is well-formed AND the library API (api_ref) accepts the same settings AND the nuclide is in the resource list of its category',
                                          'kill points are write-syscall granular; the exit status of refused lines is not asserted',
@@ -505,7 +551,7 @@ def check_C08(tier):
     agg = Agg('C08')
     thorough = tier == 'thorough'
     # (a) C04 / C03 / C05 drivers against the sanitized library
-    extra04 = ['--bkg_evts', '20000' if thorough else '1200', '--dbd_evts', '1500' if thorough else '120']
+    extra04 = ['--bkg_evts', '20000' if thorough else '1200', '--dbd_evts', '1500' if thorough else '120', '--lowevts', '30000' if thorough else '1500']
     agg.add(_gencheck('C04', tier if thorough else 'quick', 'san', extra04, tag='C08-c04'), crash_prop='C08')
     agg.add(_gencheck('C05', 'quick', 'san', ['--evts', '6000' if thorough else '600'], tag='C08-c05'), crash_prop='C08')
     if thorough:
@@ -527,7 +573,7 @@ def check_C08(tier):
     # doubles as a generation-path target here (its semantic traps are C15's business, but any trap on the unchanged tree is one too many)
     fz.update(_fuzz('fuzz_ga', ['fuzz/fuzz_ga.cc'], 'C08', secs=(120 if thorough else 10), jobs=NCPU, agg=agg, max_len=4096))
     rule = ('cases = (configuration, steered tape, event reuse / pre-fill) from the C04/C05 drivers and (operation, event sequence) from the C10 driver re-run against the ASan+UBSan+_GLIBCXX_ASSERTIONS build, plus the '
-            'structure-aware libFuzzer target fuzz_shoot (bytes -> category, name, level, mode, window, reuse pattern, MDL op, tape) and the gA sampler target fuzz_ga (loader-accepted tables + deviates); oracle = sanitizers; '
+            'structure-aware libFuzzer target fuzz_shoot (bytes -> category, name, level, mode, window, reuse pattern, MDL op, tape) and the gA sampler target fuzz_ga (loader-accepted tables + deviates); oracle = sanitizers, sharpened by red zones: a guarded layout hook puts 16 unused bytes before, between and after the fixed-size spectrum tables of bbpars and the drivers poison them (ASAN_POISON_MEMORY_REGION) while a generator is initialised, so an index one before / past a table is reported although it stays inside the object; '
             'distinct = (configuration, path signature, tail class) for the drivers + libFuzzer corpus units')
     return verdict(agg, tier, t0, rule, ['sanitizers as oracle: ASan, UBSan (-fno-sanitize-recover), _GLIBCXX_ASSERTIONS; leak detection off',
                                          'documented rejections (C++ exceptions) are not failures'], extra_cov=fz, min_eval=1000)
